@@ -152,6 +152,7 @@ impl<'b> Ctx<'b> {
             ("panicking", "alloc") => "layout_panicking",
             ("panicking", "reserve") => "panicking",
             ("typed", "alloc") => "typed",
+            ("typed", "shrink") => "typed",
             _ => "trait",
         }
     }
